@@ -153,6 +153,29 @@ impl FileUploadSession {
         }))
     }
 
+    /// Verification hook: as `dry_run`, but with the store client supplied by the caller (which is expected to
+    /// behave like a dry-run remote client: accept uploads without storing them).
+    #[cfg(xet_verif)]
+    pub async fn verif_new_with_client_dry_run(
+        config: Arc<TranslatorConfig>,
+        threadpool: Arc<ThreadPool>,
+        client: Arc<dyn Client + Send + Sync>,
+    ) -> Result<Arc<FileUploadSession>> {
+        let shard_interface = SessionShardInterface::new(config.clone(), client.clone(), true).await?;
+
+        Ok(Arc::new(Self {
+            shard_interface,
+            client,
+            upload_progress_updater: None,
+            threadpool,
+            repo_id: None,
+            config,
+            current_session_data: Mutex::new(DataAggregator::default()),
+            deduplication_metrics: Mutex::new(DeduplicationMetrics::default()),
+            xorb_upload_tasks: Mutex::new(JoinSet::new()),
+        }))
+    }
+
     /// Start to clean one file. When cleaning multiple files, each file should
     /// be associated with one Cleaner. This allows to launch multiple clean task
     /// simultaneously.
